@@ -383,17 +383,19 @@ impl Cell {
         }
     }
     pub fn to_isize(&self) -> Xresult1<isize> {
+        use std::convert::TryFrom;
         match self.value() {
-            Cell::Int(i) => Ok(*i as isize),
+            Cell::Int(i) => isize::try_from(*i).map_err(|_| Xerr::IntegerOverflow),
             val => Err(cell_type_error(INT_TYPE_NAME, val.clone())),
         }
     }
 
     pub fn to_usize(&self) -> Xresult1<usize> {
+        use std::convert::TryFrom;
         match self.value() {
             Cell::Int(i) if *i < 0 =>
                 Err(cell_type_error(xeh_xstr!("positive integer"), self.clone())),
-            Cell::Int(i) => Ok(*i as usize),
+            Cell::Int(i) => usize::try_from(*i).map_err(|_| Xerr::IntegerOverflow),
             val => Err(cell_type_error(INT_TYPE_NAME, val.clone())),
         }
     }
